@@ -37,8 +37,11 @@ def run(ctx):
     ]
     r = ctx.tlc("OxiaDbMC", "db-c16-quick.cfg", label="laws", heap="4g")
     ctx.log("SeqRule/SeqFresh (4 requests x 1 op): %d distinct states, %d transitions" % (r.distinct, r.generated))
-    r = ctx.tlc("OxiaDbMC", "db-c16-laws2.cfg", label="laws2", heap="4g")
-    ctx.log("SeqRule/SeqFresh (2 requests x <=2 ops): %d distinct states, %d transitions" % (r.distinct, r.generated))
+    r = ctx.tlc("OxiaDbMC", "db-c16-laws3.cfg", label="laws3", heap="4g")
+    ctx.log("SeqRule/SeqFresh (1 request x <=3 ops): %d distinct states, %d transitions" % (r.distinct, r.generated))
+    if not quick:
+        r = ctx.tlc("OxiaDbMC", "db-c16-laws2.cfg", label="laws2", heap="4g")
+        ctx.log("SeqRule/SeqFresh (2 requests x <=2 ops): %d distinct states, %d transitions" % (r.distinct, r.generated))
 
     binp = ctx.go_build("dbcheck")
     for cfg, mode in ((("db-c16-steps.cfg", "db"),) if quick else
